@@ -29,6 +29,7 @@ type HandlerCase struct {
 // Roles are the constructs of package service found by what they do.
 type Roles struct {
 	Start, Stop                 *ssa.Function
+	Forward                     *ssa.Function // what start stores into service.onpub: the forwarding closure or method
 	Processor, Receiver, Sender *ssa.Function
 	GoEntries                   []*ssa.Go // all go statements of the library
 	Handler                     *ssa.Function
@@ -162,6 +163,41 @@ func (c *Ctx) Roles() *Roles {
 		}
 	}
 	if r.Start != nil {
+		// the subscriber callback of the connection: a closure or a bound method stored into the onpub field
+		for _, b := range r.Start.Blocks {
+			for _, in := range b.Instrs {
+				st, ok := in.(*ssa.Store)
+				if !ok {
+					continue
+				}
+				if p := ir.PathOf(st.Addr); len(p.Fields) != 1 || p.Fields[0] != "onpub" {
+					continue
+				}
+				v := st.Val
+				if ct, ok := v.(*ssa.ChangeType); ok {
+					v = ct.X
+				}
+				mc, ok := ir.SeeThrough(v).(*ssa.MakeClosure)
+				if !ok {
+					if mc2, ok2 := v.(*ssa.MakeClosure); ok2 {
+						mc, ok = mc2, true
+					}
+				}
+				if !ok {
+					continue
+				}
+				fn := mc.Fn.(*ssa.Function)
+				if strings.HasSuffix(fn.Name(), "$bound") {
+					// bound method wrapper: the method it calls
+					for _, call := range ir.Calls(fn) {
+						if callee := call.Common().StaticCallee(); callee != nil && c.P.InLib(callee) {
+							fn = callee
+						}
+					}
+				}
+				r.Forward = fn
+			}
+		}
 		for _, call := range ir.Calls(r.Start) {
 			g, ok := call.(*ssa.Go)
 			if !ok {
